@@ -130,7 +130,7 @@ def generate(batch: str, r: Rng, idx: int, tier: str) -> Dict[str, Any]:
     if executor == "py-machine" and rcx.chance(1, 3):
         scn["ctor"] = {"timer_scale": rcx.choice([0.5, 2.0, 0.25, 3.0])}
     # the whole flag byte, not only C and Z: firmware can load F from the stack (POPU F, a hand-built RETI frame)
-    if rcx.chance(1, 2):
+    if rcx.chance(1, 2) and executor == "rs-machine":
         scn["regs"]["F"] = rcx.below(256)
     scn["crashes"] = None
     scn["crash_seed"] = r.child("crash").u64()
